@@ -101,6 +101,32 @@ def handleMap (ws : List String) : String :=
     "rank=" ++ toString p.length ++ " rdyn=" ++ toString (rankDynamic p) ++ " sext=" ++ showSext p ++ " " ++ mapBlock m
   | none => "bad-op"
 
+/-- the value a dynamic position gets when the partner type makes it static (harness: FLIPV) -/
+def flipV : List Nat := [2, 3, 1, 2]
+
+/-- pattern of the conversion partner: mode 1 flips every position (static ↔ dynamic), mode 2 only the first static and
+    the first dynamic position -/
+def flipPattern (mode : Nat) (p : Pattern) : Pattern :=
+  let firstStatic := p.findIdx (·.isSome)
+  let firstDyn := p.findIdx (·.isNone)
+  (List.range p.length).map fun k =>
+    let e := p.getD k none
+    if mode == 1 || k == firstStatic || k == firstDyn then
+      (match e with | none => some (flipV.getD k 0) | some _ => none)
+    else e
+
+/-- extents conversion to the pattern `q` and back (`mapping(const mapping<OtherExtents>&)` twice) -/
+def convThere (p q : Pattern) (l : Layout) (e : Extents) (m : Mapping) : String :=
+  match Extents.convert q e with
+  | none => "bad-op"
+  | some e2 =>
+    let m2 : Mapping := { lay := l, rank := e2.rank, ext := e2.extent, str := fun r => m.stride r }
+    match Extents.convert p e2 with
+    | none => "bad-op"
+    | some e3 =>
+      let m3 : Mapping := { lay := l, rank := e3.rank, ext := e3.extent, str := fun r => m2.stride r }
+      "eq=" ++ showB (e2.beq e && e.beq e3) ++ " mid=" ++ mapBlock m2 ++ " fin=" ++ mapBlock m3
+
 def handleConv (ws : List String) : String :=
   match parseMapping ws (fun _ => "afull") with
   | some (p, l, kind, e, m) =>
@@ -110,17 +136,11 @@ def handleConv (ws : List String) : String :=
       match mid.convertTo l with
       | some fin => "mid=" ++ mapBlock mid ++ " fin=" ++ mapBlock fin
       | none => "bad-op"
-    | "dyn" =>
-      let pd : Pattern := p.map fun _ => none
-      match Extents.convert pd e with
-      | none => "bad-op"
-      | some e2 =>
-        let m2 : Mapping := { lay := l, rank := e2.rank, ext := e2.extent, str := fun r => m.stride r }
-        match Extents.convert p e2 with
-        | none => "bad-op"
-        | some e3 =>
-          let m3 : Mapping := { lay := l, rank := e3.rank, ext := e3.extent, str := fun r => m2.stride r }
-          "eq=" ++ showB (e2.beq e) ++ " mid=" ++ mapBlock m2 ++ " fin=" ++ mapBlock m3
+    | "dyn" => convThere p (p.map fun _ => none) l e m
+    | "flip1" | "flip2" =>
+      -- partner type with other dynamic positions; legal iff its static extents agree with the values
+      let q := flipPattern (if kind == "flip1" then 1 else 2) p
+      if !compatible q e.toList then "bad-op" else convThere p q l e m
     | "lr" =>
       let other : Option Layout := match l with | .left => some .right | .right => some .left | .stride => none
       match other with
